@@ -309,6 +309,8 @@ class Evaluator:
                 c = contracts.REG.get(repo.qualname_of(a))
                 if c is not None and c.interface_flag:
                     return a
+                if c is not None:
+                    return None       # a more-derived override with its own contract: ordinary dispatch
         return None
 
     def _attr_value(self, gk, what, v, heap):
@@ -368,6 +370,22 @@ class Evaluator:
                 ety = getattr(e, '_elem_ty', None) or TObj(object)
             s2, ref = self.new_list(s, ety, vals)
             out.append((s2, ref))
+        return out
+
+    def ev_Dict(self, e, st):
+        dty = getattr(e, '_dict_ty', None)
+        out = []
+        for s, vals in self.ev_many(list(e.keys) + list(e.values), st):
+            ks, vs = vals[:len(e.keys)], vals[len(e.keys):]
+            if dty is None:
+                if not ks:
+                    raise Unsupported('empty dict display without a declared type')
+                dty = TDict(ks[0].ty, vs[0].ty)
+            s2, r = self.new_ref(s, 2)
+            s2.heap.dict_new(dty.k, r)
+            for k, v in zip(ks, vs):
+                s2.heap.dict_put(dty.k, dty.v, r, coerce(k, dty.k).term, v)
+            out.append((s2, SV(dty, [r])))
         return out
 
     def new_ref(self, st, cls_num):
